@@ -267,11 +267,26 @@ def shape_programs(dev):
          "dw": M([[(0, 0), (0, 5)], [(1, 0), (1, 5)], [(2, 0), (2, 5)]]), "vols": M([[1, 4], [2, 5], [3, 6]]), "label": "2d transfer", "wash": 1},
         {"op": "add", "lw": P, "wells": L([(0, 0), (0, 0), (0, 0)]), "vols": L([1, 2, 3]), "label": "thrice"},
     ])
+    prog("broadcast", [
+        {"op": "transfer", "src": T, "sw": L([(3, 1)]), "dst": P, "dw": L([(0, 0)]), "vols": L([10, 20, 15]), "label": "one source, one destination, three volumes", "wash": 1},
+        {"op": "transfer", "src": T, "sw": S((3, 1)), "dst": P, "dw": S((1, 0)), "vols": L([1, 2]), "label": "scalars and two volumes", "wash": "reuse"},
+        {"op": "transfer", "src": T, "sw": L([(0, 0)]), "dst": P, "dw": L([(0, 1), (1, 1), (2, 1)]), "vols": S(4), "label": "one to many", "wash": 1},
+        {"op": "transfer", "src": P, "sw": L([(0, 1), (1, 1), (2, 1)]), "dst": T, "dw": L([(2, 2)]), "vols": L([1, 2, 3]), "label": "many to one", "wash": 1},
+        {"op": "transfer", "src": T, "sw": L([]), "dst": P, "dw": L([]), "vols": S(5), "label": "no wells, one volume", "wash": 1},
+        {"op": "transfer", "src": T, "sw": L([(0, 0)]), "dst": P, "dw": L([]), "vols": S(5), "label": "no destination", "wash": 1},
+        {"op": "transfer", "src": T, "sw": L([]), "dst": P, "dw": L([(0, 0)]), "vols": L([]), "label": "no source", "wash": 1},
+        {"op": "transfer", "src": T, "sw": L([(0, 0)]), "dst": P, "dw": L([(0, 0)]), "vols": L([]), "label": "no volumes", "wash": 1},
+        {"op": "transfer", "src": T, "sw": L([(0, 0)]), "dst": P, "dw": L([(3, 5)]), "vols": S(1), "label": "fine", "wash": 1},
+    ])
     prog("mismatch", [
         {"op": "add", "lw": P, "wells": L([(0, 0), (1, 0), (2, 0)]), "vols": L([1, 2]), "label": "too few"},
         {"op": "remove", "lw": P, "wells": L([(0, 0), (1, 0)]), "vols": L([1, 2, 3]), "label": "too many"},
         {"op": "add", "lw": P, "wells": M([[(0, 0), (0, 1)], [(1, 0), (1, 1)]]), "vols": L([1, 2, 3]), "label": "2x2 vs 3"},
         {"op": "aspirate", "lw": P, "wells": L([(0, 0), (1, 0), (2, 0)]), "vols": L([1, 2]), "label": "asp too few"},
+        {"op": "aspirate", "lw": P, "wells": S((0, 0)), "vols": L([1, 1]), "label": "one well, two volumes"},
+        {"op": "dispense", "lw": P, "wells": L([(0, 1)]), "vols": L([1, 2, 1]), "label": "one well listed once, three volumes"},
+        {"op": "add", "lw": P, "wells": S((1, 1)), "vols": L([1, 1]), "label": "one well, two volumes"},
+        {"op": "dispense", "lw": P, "wells": L([(0, 1)]), "vols": S(25), "label": "a later step that fits only if nothing was booked twice"},
     ])
     return progs
 
@@ -504,6 +519,8 @@ def tip_programs(dev):
         h["ops"] = [
             {"op": "transfer", "src": T, "sw": L([(0, 0), (1, 0)]), "dst": P, "dw": L([(0, 1), (1, 1)]), "vols": L([4, 11]),
              "label": "tips", "wash": 1, "kw": {"tip": t, "lc": "Water"}},
+            {"op": "transfer", "src": T, "sw": L([(0, 0), (1, 1), (2, 0)]), "dst": P, "dw": L([(0, 2), (1, 0), (2, 3)]), "vols": L([2, 7, 1]),
+             "label": "three column groups", "wash": "reuse", "kw": {"tip": t}},
             {"op": "aspirate", "lw": P, "wells": L([(0, 0), (0, 1)]), "vols": L([1, 2]), "label": None, "kw": {"tip": t}},
             {"op": "dispense", "lw": P, "wells": L([(2, 2)]), "vols": S(3), "label": None, "kw": {"tip": t}},
             {"op": "dispense", "lw": P, "wells": L([(0, 3), (1, 3), (2, 3)]), "vols": L([1, 2, 1]), "label": "three wells", "kw": {"tip": t}},
@@ -550,7 +567,7 @@ def badwell_programs(dev):
     """Well ids that do not exist in the labware (out of range or malformed) through every record emitting operation (C08)."""
     progs = []
     P, T, Sx = 0, 1, 2
-    bad_plate = [(3, 0), (0, 4), (25, 0), (30, 1), "A1", "A001x", "AA01", "a01", "01A", "", "A-1", "Ä01", "A 01", "A00", "C0", "B000"]
+    bad_plate = [(3, 0), (0, 4), (25, 0), (30, 1), "A1", "A001x", "AA01", "a01", "01A", "", "A-1", "Ä01", "A 01", "A00", "C0", "B000", "A011", "A01x", "B0100", "C04 "]
     bad_trough = [(4, 0), (0, 3), "A1", "E01", "column_01", "A00", "D0"]
     k = 0
     for w in bad_plate:
@@ -723,6 +740,14 @@ def round2_programs(dev):
         {"op": "transfer", "src": T, "sw": L([(1, 0)]), "dst": T, "dw": L([(3, 0)]), "vols": S(15), "label": "24 - 15 < 10", "wash": 1},
         {"op": "transfer", "src": P, "sw": L([(0, 0)]), "dst": P, "dw": L([(0, 0)]), "vols": S(40), "label": "split mix: 40 in steps of 7, each step fits", "wash": 1},
     ], wlmax=16, flags={"comp": False, "norm": False})
+    # per-well compositions where a zero volume comes before a non-zero one
+    prog("zero-before-nonzero-with-compositions", lw(), [
+        {"op": "dispense", "lw": P, "wells": L([(0, 1), (1, 1), (2, 1)]), "vols": L([4, 0, 2]), "label": "skip the middle",
+         "comps": [{"acid": (1, 1)}, {"base": (1, 1)}, {"salt": (1, 1)}]},
+        {"op": "add", "lw": P, "wells": L([(0, 2), (1, 2), (2, 2), (0, 3)]), "vols": L([0, 0, 3, 1]), "label": "two zeros first",
+         "comps": [{"a": (1, 1)}, {"b": (1, 1)}, {"c": (1, 1)}, {"d": (1, 2), "c": (1, 2)}]},
+        {"op": "transfer", "src": P, "sw": L([(2, 1), (2, 2)]), "dst": Sx, "dw": L([(0, 1), (0, 1)]), "vols": L([1, 1]), "label": "pool", "wash": 1},
+    ], wlmax=30)
     # one call naming the same well twice with two different liquids
     prog("same-well-twice", lw(), [
         {"op": "dispense", "lw": P, "wells": L([(0, 1), (0, 1)]), "vols": L([2, 2]), "label": "acid then base",
